@@ -133,8 +133,18 @@ func swapCase(s string) string {
 	return string(b)
 }
 
-func genC08(tier string, seed uint64, emit func(string)) {
+func genC08(tier string, seed uint64, emit0 func(string)) {
 	r := NewRng(seed)
+	// every third case is also run on connections served as TLS connections are (tlsState present): the password gate
+	// is the same on both ports
+	nth := 0
+	emit := func(line string) {
+		emit0(line)
+		nth++
+		if nth%3 == 0 && strings.HasPrefix(line, "sys n=") {
+			emit0("sys tls " + line[4:])
+		}
+	}
 	pws := []string{"secret", "S3cr3t!", "pass word", "p\r\nq", "a"}
 	probe := func(id int) []sysStep {
 		return []sysStep{mkStep(id, nil, []byte("PING")), mkStep(id, nil, []byte("GET"), []byte("k"))}
